@@ -931,9 +931,9 @@ static int run_case(const bc_t *c, char *human, char *what)
         snprintf(g_cls, sizeof(g_cls), "mod=%s", em->cls);
         HUM("mont_norm B^%d mod %s[%d]", em->nd, em->cls, em->nd);
         hex_bn("m", em->bn);
-        if (!BN_is_odd(em->bn))
+        if (!BN_is_odd(em->bn) || BN_is_one(em->bn))
         {
-            DONE(RET_NA); /* Montgomery arithmetic is defined for odd moduli only */
+            DONE(RET_NA); /* Montgomery arithmetic is defined for odd moduli > 1 only */
         }
         mk(&m, em, 0, 1); nm = 1;
         mk_junk(&out, (c->v & 1) ? em->nd + 5 : em->nd + 1, (c->v & 1) ? em->nd + 4 : 1, 0); no = 1;
